@@ -34,6 +34,7 @@ def processLine (brotliDict : ByteArray) (line : String) : String :=
       | "xw" => handleXw kv
       | "fl" => handleFl kv
       | "flr" => handleFlr kv
+      | "flrr" => handleFlrr kv
       | "win" => handleWin kv
       | "bz" => handleBz kv
       | "bzw" => handleBzw kv
